@@ -142,6 +142,16 @@ impl Ctx {
         self.count("cases", 1);
     }
 
+    /// record a description of the case in flight (kept in the heartbeat file, so that the driver can
+    /// attribute a native crash or a hang to its input)
+    pub fn describe(&mut self, text: &str) {
+        if let Some(f) = &mut self.hb_file {
+            let _ = f.seek(SeekFrom::Start(24));
+            let t: String = text.chars().take(1500).collect();
+            let _ = f.write_all(format!("\n{}\n\u{0}", t).as_bytes());
+        }
+    }
+
     pub fn count(&mut self, k: &str, n: u64) {
         if let Some(v) = self.counters.get_mut(k) { *v += n } else { self.counters.insert(k.to_string(), n); }
     }
